@@ -54,12 +54,16 @@ func (node TlvSimpleNode) stringWithIndent(indent int) string {
 	var sb strings.Builder
 	sb.WriteString(indentString(indent))
 	sb.WriteString(fmt.Sprintf("%02x: %x", node.tag, node.value))
+	isOid := false
 	if node.tag == 0x06 {
-		// special handling for ASN1 OIDs
-		tmpOid := oid.DecodeAsn1objectId(node.value)
-		tmpOidDesc := oid.OidDesc(tmpOid)
-		sb.WriteString(fmt.Sprintf(" [%s: %s]", tmpOid.String(), tmpOidDesc))
-	} else if utils.PrintableBytes(node.value) {
+		// special handling for ASN1 OIDs (skipped if the value is not a valid OID encoding)
+		if tmpOid, err := oid.TryDecodeAsn1objectId(node.value); err == nil {
+			isOid = true
+			tmpOidDesc := oid.OidDesc(tmpOid)
+			sb.WriteString(fmt.Sprintf(" [%s: %s]", tmpOid.String(), tmpOidDesc))
+		}
+	}
+	if !isOid && utils.PrintableBytes(node.value) {
 		// special handling for printable bytes
 		sb.WriteString(fmt.Sprintf(" [%s]", string(node.value)))
 	}
